@@ -122,6 +122,16 @@ func runMem(evs []memEv) (string, []int) {
 			consumed := hl0 + n - v.HistoryLen()
 			if v.HistoryLen() > 0 || v.HistoryCap() > 0 {
 				st.newcap = v.HistoryCap() + consumed
+				if v.HistoryLen() == 0 && st.err == "0" {
+					// only a tree that keeps historyData[0:0] gets here: that slice starts where the
+					// last extracted frame started, so its capacity still includes that frame
+					for i := len(got) - 1; i >= 0; i-- {
+						if !got[i].ExtensionFields.SubcontractComplete {
+							st.newcap -= len(got[i].ExtensionFields.TerminalData)
+							break
+						}
+					}
+				}
 			}
 		}
 		st.hl, st.hc = v.HistoryLen(), v.HistoryCap()
@@ -166,6 +176,7 @@ func c09(c *Ctx) {
 		variant = "cur"
 	}
 
+	nsig := map[string]int{}
 	run := func(chunks [][]byte, kind string) {
 		var evs []memEv
 		for _, ch := range chunks {
@@ -190,6 +201,9 @@ func c09(c *Ctx) {
 				sig := "changed-by-later-read"
 				if i == len(parts)-1 {
 					when, sig = "after the close", "changed-by-close"
+				}
+				if nsig[sig]++; nsig[sig] > 20 {
+					break
 				}
 				c.Violate(Violation{Signature: "C09/" + sig, What: "a delivered message differs from what it was at delivery " + when + " (index=content now)",
 					Input: req, Observed: Trunc(p[k+3:], 3000), Required: "every delivered message keeps body, raw frame, phone bytes, id, serial and package numbers"})
@@ -253,7 +267,7 @@ func c09(c *Ctx) {
 
 	// (1) exhaustive cut patterns for 2..4 frames
 	for k := 2; k <= 4; k++ {
-		reps := 3
+		reps := 6
 		if !quick {
 			reps = 40
 		}
@@ -282,7 +296,7 @@ func c09(c *Ctx) {
 	c.Exhaustive = true
 
 	// (2) the history-reuse pattern and its neighbours: frame split at every offset, then 1..3 frames in one read
-	nsplit := 60
+	nsplit := 200
 	if !quick {
 		nsplit = 1500
 	}
@@ -295,7 +309,7 @@ func c09(c *Ctx) {
 	}
 
 	// (3) random histories
-	nrand := 1500
+	nrand := 3000
 	if !quick {
 		nrand = 40000
 	}
@@ -323,7 +337,7 @@ func c09(c *Ctx) {
 	}
 
 	// (4) malformed traffic in between (errors leave the parser usable; the reader would stop)
-	nbad := 300
+	nbad := 600
 	if !quick {
 		nbad = 8000
 	}
